@@ -1,19 +1,234 @@
+/-
+  C14 — Sanitized HTML has only allow-listed elements, attributes, schemes and classes.
+  Property theorems only; helper lemmas live in `Lemmas/Html*.lean`.
+
+  Reading guide. `clean L c roots` is the model of `SanitizerConfig::clean` on the children of a
+  parsed fragment (`Model/Html.lean`); `L` are the private static lists of `clean.rs`, `c` is a
+  `SanitizerConfig` with every builder field. The predicates `elemOk`, `attrOk`, `valueOk`,
+  `classOk`, `AllElemsL`, `NoOtherL`, `depthOfL`, `textOfL`, `keptTextL` are the vocabulary of
+  `Spec/HtmlPolicy.lean` (what a configuration promises); `Spec/HtmlAllow.lean` holds the Matrix
+  spec's lists. The first block of theorems holds for EVERY configuration, every choice of static
+  lists and every tree. The second block evaluates the promises for `strict()`/`compat()` with and
+  without `remove_reply_fallback()` at the spec's lists: there they are the spec's tables. The
+  third block (T1) ties the lists the running implementation uses to the spec's.
+-/
+import RumaModel.Lemmas.HtmlTree
 import RumaModel.Lemmas.HtmlTables
 namespace Ruma.Props.C14
-open Ruma Ruma.Html
+open Ruma Ruma.Html Ruma.Spec.HtmlPolicy Ruma.Lemmas.Html
 
+/-! ## For every configuration and every tree -/
+
+/-- Every element of the output is allowed by the configuration: not removed by name, not
+ignored by name, and on the allow list if there is one. -/
+theorem clean_elements_allowed (L : Lists) (c : Cfg) (roots : List Node) :
+    AllElemsL (fun _ n _ => elemOk L c n = true) 0 (clean L c roots) :=
+  cleanList_all L c _ (fun _ _ n as _ h => elemOk_of_none L c n as _ h) roots 0 0 (Nat.le_refl 0)
+
+/-- On every element of the output, every attribute is allowed for that element. -/
+theorem clean_attrs_allowed (L : Lists) (c : Cfg) (roots : List Node) :
+    AllElemsL (fun _ n as => ∀ a ∈ as, attrOk L c n a.name = true) 0 (clean L c roots) :=
+  cleanList_all L c _
+    (fun _ _ n as _ _ a ha => ((attrGood_iff L c n a).1 (cleanAttrs_good L c n as a ha)).1)
+    roots 0 0 (Nat.le_refl 0)
+
+/-- On every element of the output, EVERY attribute (other than `class`, whose value is a class
+list and is rewritten by the class filter) carries an acceptable value: no denied scheme, and if
+the attribute has a scheme list the value starts with `scheme:` for a scheme of the list —
+whatever other attributes accompany it. -/
+theorem clean_schemes_allowed (L : Lists) (c : Cfg) (roots : List Node) :
+    AllElemsL (fun _ n as => ∀ a ∈ as, a.name ≠ className → valueOk L c n a.name a.value = true)
+      0 (clean L c roots) :=
+  cleanList_all L c _
+    (fun _ _ n as _ h a ha hc =>
+      ((nodeAction_none_iff L c n as _).1 h).2.2.2 a (cleanAttrs_origin L c n as a ha hc))
+    roots 0 0 (Nat.le_refl 0)
+
+/-- Why `class` is excluded above: a configuration may put a scheme list on `class` itself; the
+class filter then rewrites the value after the scheme check. (Not reachable in the standard
+configurations, see `plain_class_unrestricted`.) -/
+example :
+    let c : Cfg := { allowSchemes := some ⟨false, [(bs "p", [(className, [bs "a"])])]⟩,
+                     removeClasses := some [(bs "p", [bs "a:*"])] }
+    clean Spec.HtmlAllow.lists c [.elem (bs "p") [⟨bs "0", className, bs "a:x b"⟩] []]
+      = [.elem (bs "p") [⟨bs "0", className, bs "b"⟩] []] := by decide +kernel
+
+/-- Every class left in a `class` attribute of the output is allowed for its element. -/
+theorem clean_classes_allowed (L : Lists) (c : Cfg) (roots : List Node) :
+    AllElemsL (fun _ n as => ∀ a ∈ as, a.name = className →
+      ∀ cl ∈ splitWs a.value, classOk L c n cl = true) 0 (clean L c roots) :=
+  cleanList_all L c _
+    (fun _ _ n as _ _ a ha => ((attrGood_iff L c n a).1 (cleanAttrs_good L c n as a ha)).2)
+    roots 0 0 (Nat.le_refl 0)
+
+/-- The output consists of elements and text only: no comments or other node kinds. -/
+theorem clean_no_other_nodes (L : Lists) (c : Cfg) (roots : List Node) :
+    NoOtherL (clean L c roots) :=
+  cleanList_noOther L c roots 0
+
+/-- With a maximum depth `m` (100 in strict and compat mode), the output nests at most `m`
+levels of elements. -/
+theorem clean_depth_le (L : Lists) (c : Cfg) (roots : List Node) (m : Nat)
+    (hm : maxDepthValue L c = some m) : depthOfL (clean L c roots) ≤ m := by
+  have h := cleanList_all L c (fun d _ _ => d < m)
+    (fun dOut dIn n as hle h => Nat.lt_of_le_of_lt hle (depth_of_none L c n as dIn m h hm))
+    roots 0 0 (Nat.le_refl 0)
+  have := depth_of_allElemsL m _ 0 h (Nat.zero_le m)
+  simpa [clean] using this
+
+/-- With reply-fallback removal, no `mx-reply` element remains (its content is gone as well:
+`clean_keeps_text_in_order` with `keptText` skipping it). -/
+theorem clean_no_mx_reply (L : Lists) (c : Cfg) (roots : List Node)
+    (h : c.removeReplyFallback = true) :
+    AllElemsL (fun _ n _ => n ≠ replyName) 0 (clean L c roots) :=
+  cleanList_all L c _
+    (fun _ _ n as _ hact hn => by
+      have := elemOk_of_none L c n as _ hact
+      simp [elemOk, elemRemoved, h, hn] at this)
+    roots 0 0 (Nat.le_refl 0)
+
+/-- The text of the output is exactly the text outside dropped subtrees (removed element names,
+`mx-reply` under reply-fallback removal, nesting beyond the maximum depth, comments), in document
+order: text and descendants of elements that are merely not allowed are kept. -/
+theorem clean_keeps_text_in_order (L : Lists) (c : Cfg) (roots : List Node) :
+    textOfL (clean L c roots) = keptTextL L c 0 roots :=
+  cleanList_text L c roots 0
+
+/-! ## The standard configurations at the spec's lists -/
+
+section spec
+open Spec.HtmlAllow
+
+/-- In strict and compat mode, with or without reply-fallback removal, the allowed elements are
+the spec's list — minus `mx-reply` under reply-fallback removal. -/
+theorem plain_elemOk_spec (m : Mode) (rrf : Bool) (n : Str) :
+    elemOk lists (plain (some m) rrf) n = (elemAllowed n && !(rrf && n == replyName)) := by
+  simp [elemOk, elemRemoved, elemListed, plain, optContains, isOverride, Cfg.useStrict, lists,
+    elemAllowed, Bool.and_comm]
+
+/-- … the allowed attributes are the spec's rows. -/
+theorem plain_attrOk_spec (m : Mode) (rrf : Bool) (el a : Str) :
+    attrOk lists (plain (some m) rrf) el a = attrAllowed el a := by
+  simp only [attrOk, plain, isOverride, Cfg.useStrict, lists, attrAllowed, row, Option.bind_none,
+    Option.isSome_none, Option.isSome_some, Bool.or_true, Bool.not_true, Bool.false_or,
+    Bool.not_false, Bool.true_and, if_true, optContains]
+  cases mapGet Spec.HtmlAllow.attrs el <;> simp
+
+/-- … the value restrictions are the spec's scheme lists (`matrix:` only in compat mode). -/
+theorem plain_valueOk_spec (m : Mode) (rrf : Bool) (el a v : Str) :
+    valueOk lists (plain (some m) rrf) el a v = valueAllowed m el a v := by
+  simp only [valueOk, denied, schemeList, plain, schemeCtx, attrSchemes, isOverride, Cfg.useStrict,
+    Cfg.useCompat, lists, valueAllowed, Spec.HtmlAllow.schemeList, Option.bind_none, schemesHit,
+    Option.isNone_none, Option.isSome_some, Bool.not_true, Bool.and_false, Bool.false_eq_true,
+    if_false, Bool.not_false, Bool.true_and, if_true, Option.getD_none, List.nil_append]
+  cases m <;>
+  cases (mapGet schemesStrict el).bind (mapGet · a) <;>
+  cases (mapGet schemesCompat el).bind (mapGet · a) <;>
+  simp [schemesPass, startsWithScheme] <;> rfl
+
+/-- … the allowed classes are `language-*` on `code`. -/
+theorem plain_classOk_spec (m : Mode) (rrf : Bool) (el cl : Str) :
+    classOk lists (plain (some m) rrf) el cl = classAllowed el cl := by
+  simp [classOk, plain, isOverride, Cfg.useStrict, lists, classAllowed, row, removedClass]
+
+/-- … the maximum depth is 100. -/
+theorem plain_maxDepth_spec (m : Mode) (rrf : Bool) :
+    maxDepthValue lists (plain (some m) rrf) = some 100 := rfl
+
+/-- … and `class` carries no URI restriction, so `clean_schemes_allowed` loses nothing there. -/
+theorem plain_class_unrestricted (m : Mode) (rrf : Bool) (el v : Str) :
+    valueOk lists (plain (some m) rrf) el className v = true := by
+  rw [plain_valueOk_spec]
+  simp only [valueAllowed, Spec.HtmlAllow.schemeList]
+  have h1 : ∀ el, (mapGet schemesStrict el).bind (mapGet · className) = none := by
+    intro el
+    simp only [schemesStrict, mapGet]
+    split <;> simp_all [mapGet, className, bs] <;> (split <;> simp_all [mapGet, bs])
+  have h2 : ∀ el, (mapGet schemesCompat el).bind (mapGet · className) = none := by
+    intro el
+    simp only [schemesCompat, mapGet]
+    split <;> simp_all [mapGet, className, bs]
+  cases m <;> simp [h1, h2]
+
+/-- The property, in the spec's words, for `sanitize_html(_, mode, reply_fallback)`: every element
+of the output is on the spec's list (and is not `mx-reply` under reply-fallback removal), every
+attribute is in the element's row, every attribute value satisfies the spec's scheme restriction
+whatever other attributes accompany it, every class on `code` matches `language-*`; there are no
+comments; nesting is at most 100; the text outside dropped subtrees is kept in order. -/
+theorem standard_output_spec (m : Mode) (rrf : Bool) (roots : List Node) :
+    let out := clean lists (plain (some m) rrf) roots
+    AllElemsL (fun _ n as =>
+        elemAllowed n = true ∧ (rrf = true → n ≠ replyName) ∧
+        ∀ a ∈ as, attrAllowed n a.name = true ∧ valueAllowed m n a.name a.value = true ∧
+          (a.name = className → ∀ cl ∈ splitWs a.value, classAllowed n cl = true)) 0 out ∧
+    NoOtherL out ∧ depthOfL out ≤ 100 ∧
+    textOfL out = keptTextL lists (plain (some m) rrf) 0 roots := by
+  refine ⟨?_, clean_no_other_nodes .., clean_depth_le _ _ _ 100 (plain_maxDepth_spec m rrf),
+    clean_keeps_text_in_order ..⟩
+  apply cleanList_all lists (plain (some m) rrf) _ _ roots 0 0 (Nat.le_refl 0)
+  intro _ dIn n as _ hact
+  have he := elemOk_of_none _ _ n as _ hact
+  rw [plain_elemOk_spec] at he
+  simp only [Bool.and_eq_true, Bool.not_eq_true', Bool.and_eq_false_iff] at he
+  refine ⟨he.1, ?_, ?_⟩
+  · intro hr hn
+    rcases he.2 with h | h
+    · rw [hr] at h; cases h
+    · simp [hn] at h
+  · intro a ha
+    have hg := (attrGood_iff _ _ n a).1 (cleanAttrs_good _ _ n as a ha)
+    refine ⟨by rw [← plain_attrOk_spec m rrf]; exact hg.1, ?_, ?_⟩
+    · rw [← plain_valueOk_spec m rrf]
+      by_cases hc : a.name = className
+      · rw [hc]; exact plain_class_unrestricted m rrf n a.value
+      · exact ((nodeAction_none_iff _ _ n as _).1 hact).2.2.2 a (cleanAttrs_origin _ _ n as a ha hc)
+    · intro hc cl hcl
+      rw [← plain_classOk_spec m rrf]; exact hg.2 hc cl hcl
+
+/-- The F3 witnesses on the model of the repaired code: the link and the image are dropped. -/
+example :
+    clean lists (plain (some .strict) false)
+      [.elem (bs "a") [⟨bs "0", className, bs "x"⟩, ⟨bs "0", bs "href", bs "javascript:alert(1)"⟩]
+        [.text (bs "t")]] = [.text (bs "t")] := by decide +kernel
+example :
+    clean lists (plain (some .strict) false)
+      [.elem (bs "img") [⟨bs "0", bs "alt", bs "a"⟩, ⟨bs "0", bs "src", bs "http://x/y"⟩] []] = [] := by
+  decide +kernel
+
+end spec
+
+/-! ## T1: the lists of the running implementation are the spec's -/
+
+/-- What `SanitizerConfig::strict()` does on every point of the stated universes (extracted on
+this run by one-element probes) is what the spec's lists say. -/
 theorem strict_lists_eq_spec :
     Generated.C14.strict = Spec.HtmlAllow.expected .strict Generated.C14.univ :=
   Lemmas.HtmlTables.strict_table
 
+/-- The same for `SanitizerConfig::compat()`. -/
 theorem compat_lists_eq_spec :
     Generated.C14.compat = Spec.HtmlAllow.expected .compat Generated.C14.univ :=
   Lemmas.HtmlTables.compat_table
 
+/-- Every name the spec lists is inside the universes, so the comparison misses nothing. -/
 theorem spec_within_universe : Spec.HtmlAllow.withinUniverse Generated.C14.univ = true :=
   Lemmas.HtmlTables.within
 
 end Ruma.Props.C14
+#print axioms Ruma.Props.C14.clean_elements_allowed
+#print axioms Ruma.Props.C14.clean_attrs_allowed
+#print axioms Ruma.Props.C14.clean_schemes_allowed
+#print axioms Ruma.Props.C14.clean_classes_allowed
+#print axioms Ruma.Props.C14.clean_no_other_nodes
+#print axioms Ruma.Props.C14.clean_depth_le
+#print axioms Ruma.Props.C14.clean_no_mx_reply
+#print axioms Ruma.Props.C14.clean_keeps_text_in_order
+#print axioms Ruma.Props.C14.plain_elemOk_spec
+#print axioms Ruma.Props.C14.plain_attrOk_spec
+#print axioms Ruma.Props.C14.plain_valueOk_spec
+#print axioms Ruma.Props.C14.plain_classOk_spec
+#print axioms Ruma.Props.C14.plain_class_unrestricted
+#print axioms Ruma.Props.C14.standard_output_spec
 #print axioms Ruma.Props.C14.strict_lists_eq_spec
 #print axioms Ruma.Props.C14.compat_lists_eq_spec
 #print axioms Ruma.Props.C14.spec_within_universe
